@@ -3,6 +3,7 @@
 mod aspsem;
 mod dom;
 mod hteval;
+mod simp;
 mod trans;
 
 use std::sync::Mutex;
@@ -35,6 +36,22 @@ fn par_for<T: Sync, F: Fn(&T) + Sync>(items: &[T], f: F) {
             });
         }
     });
+}
+
+pub fn par_map<T: Sync, R: Send, F: Fn(&T) -> R + Sync>(items: &[T], f: F) -> Vec<R> {
+    let out: Mutex<Vec<(usize, R)>> = Mutex::new(Vec::new());
+    let idx: Vec<usize> = (0..items.len()).collect();
+    par_for(&idx, |i| { let r = f(&items[*i]); out.lock().unwrap().push((*i, r)); });
+    let mut v = out.into_inner().unwrap();
+    v.sort_by_key(|x| x.0);
+    v.into_iter().map(|x| x.1).collect()
+}
+
+fn run_simp(deep: bool) -> (String, Vec<trans::Failure>) {
+    let mut st = simp::SimpStats { formulas: 0, compared: 0, skipped_inexact: 0, evaluations: 0, runs: 0 };
+    let mut fails = Vec::new();
+    simp::check(deep, &mut st, &mut fails);
+    (format!("\"formulas\": {}, \"portfolio_strategy_runs\": {}, \"input_output_pairs\": {}, \"pairs_skipped_not_exactly_evaluable\": {}, \"pair_interpretation_evaluations\": {}", st.formulas, st.runs, st.compared, st.skipped_inexact, st.evaluations), fails)
 }
 
 fn run_trans(deep: bool) -> (String, Vec<trans::Failure>) {
@@ -73,6 +90,7 @@ fn main() {
     let deep = args.iter().any(|a| a == "--deep");
     let (stats, fails) = match check.as_str() {
         "trans" => run_trans(deep),
+        "simp" => run_simp(deep),
         _ => { eprintln!("usage: bounded trans [--deep]"); std::process::exit(2); }
     };
     let harness_broken = fails.iter().any(|f| f.property == "harness");
